@@ -219,7 +219,7 @@ func c13Run(kind string, ndest, queue, ncommon int, alphabet []string, hist []in
 		// (bounds handed over unsorted: ids and ranges follow the sorted bounds, not the caller's order)
 		// (... and two duration bounds beyond 2^53 ns that a float64 cannot tell apart)
 		big := time.Duration(1) << 53
-		vb, db := tally.ValueBuckets{2, 1, 1}, tally.DurationBuckets{2 * time.Second, time.Second, big + 1, big}
+		vb, db := tally.ValueBuckets{2, 1, 1}, tally.DurationBuckets{big + 1, 2 * time.Second, big, time.Second} // (more than one adjacent swap away from sorted)
 		for _, op := range hist {
 			steps++
 			var a, b, c, d string
